@@ -15,11 +15,11 @@ if [ -z "$DEMO" ]; then
   [ -f demo.diff ] || { echo "no demo test and no demo.diff in $W"; exit 3; }
   INCRATE=1
   PKGFLAG=""; grep -q '^+++ b/crates/' demo.diff && PKGFLAG="-p $(grep -m1 '^+++ b/crates/' demo.diff | cut -d/ -f3)"
-  RUN="cargo test --offline $PKGFLAG --lib seeded_demo"
+  RUN="cargo test --offline ${DEMO_FLAGS:-} $PKGFLAG --lib seeded_demo"
 else
   case "$DEMO" in
     crates/*) RUN="cargo test --offline -p $(echo "$DEMO" | cut -d/ -f2) --test $(basename "$DEMO" .rs)";;
-    *) RUN="cargo test --offline --test $(basename "$DEMO" .rs)";;
+    *) RUN="cargo test --offline ${DEMO_FLAGS:-} --test $(basename "$DEMO" .rs)";;
   esac
 fi
 git apply --check -R patch.diff 2>/dev/null || git apply patch.diff || { echo "patch does not apply"; exit 4; }
